@@ -185,6 +185,11 @@ def fam_frames(N, k):
             for fr in itertools.product((0, 1, 2), repeat=len(cb)):
                 t = tx_spec(exons, strand, (0, ln), frames=list(fr), pid="p0", product="prod0")
                 yield case("frames", coll_spec([gene_spec([t])]), genome, "chrom", True, True)
+                # the same gene built on a sequence chunk that contains it, exported in CHROMOSOME coordinates: the phases are
+                # those of the stored frames, whatever frames a chunk-relative view would infer
+                yield case("frames", coll_spec([gene_spec([t])]), genome, ["chunk", 0, N], True, False, legs=(1,))
+                if exons[0][0] > 0:
+                    yield case("frames", coll_spec([gene_spec([t])]), genome, ["chunk", exons[0][0], N], True, False, legs=(1,))
 
 
 # ---- family: multi (2..3 isoforms per gene) -----------------------------------------------------------------------------------
@@ -441,6 +446,8 @@ def fam_trunc(N, k):
         wins = [(0, b) for b in range(lo + 1, hi)] if strand == "+" else [(a, N) for a in range(lo + 1, hi)]
         for a, b in wins:
             yield case("trunc", spec, genome, ["chunk", a, b], False, False, legs=(1,), trunc=True)
+            # the cut gene exported in chromosome coordinates: the rows are those of the whole-chromosome gene
+            yield case("trunc", spec, genome, ["chunk", a, b], True, False, legs=(1,))
 
 
 # ---- family: embedded (realistic keys that contain, but do not start with, an identifier word) ------------------------------------------
